@@ -83,7 +83,8 @@ func (b *stateBackend) Store(
 	stateUpdate *core.StateUpdate,
 	newClasses map[felt.Felt]core.ClassDefinition,
 ) error {
-	return b.database.Write(func(batch db.Batch) error {
+	filterTouched := false
+	err := b.database.Write(func(batch db.Batch) error {
 		if err := verifyBlockSuccession(b.database, block); err != nil {
 			return err
 		}
@@ -108,12 +109,19 @@ func (b *stateBackend) Store(
 			return err
 		}
 
+		filterTouched = true
 		return b.runningFilter.InsertWithBatch(batch, block.EventsBloom, block.Number)
 	})
+	if err != nil && filterTouched {
+		// the in-memory filter was already updated by the failed batch: re-read it from disk
+		b.runningFilter.Invalidate()
+	}
+	return err
 }
 
 func (b *stateBackend) RevertHead() error {
-	return b.database.Write(func(batch db.Batch) error {
+	filterTouched := false
+	err := b.database.Write(func(batch db.Batch) error {
 		blockNumber, err := core.GetChainHeight(b.database)
 		if err != nil {
 			return err
@@ -142,8 +150,14 @@ func (b *stateBackend) RevertHead() error {
 			return err
 		}
 
+		filterTouched = true
 		return b.runningFilter.OnReorgWithBatch(batch)
 	})
+	if err != nil && filterTouched {
+		// the in-memory filter was already updated by the failed batch: re-read it from disk
+		b.runningFilter.Invalidate()
+	}
+	return err
 }
 
 func (b *stateBackend) GetReverseStateDiff() (core.StateDiff, error) {
@@ -211,7 +225,8 @@ func (b *stateBackend) Finalise(
 	newClasses map[felt.Felt]core.ClassDefinition,
 	sign core.BlockSignFunc,
 ) error {
-	return b.database.Write(func(batch db.Batch) error {
+	filterTouched := false
+	err := b.database.Write(func(batch db.Batch) error {
 		st, err := state.New(stateUpdate.OldRoot, b.stateDB, batch)
 		if err != nil {
 			return err
@@ -245,8 +260,14 @@ func (b *stateBackend) Finalise(
 			return err
 		}
 
+		filterTouched = true
 		return b.runningFilter.InsertWithBatch(batch, block.EventsBloom, block.Number)
 	})
+	if err != nil && filterTouched {
+		// the in-memory filter was already updated by the failed batch: re-read it from disk
+		b.runningFilter.Invalidate()
+	}
+	return err
 }
 
 func (b *stateBackend) VerifyBlockHash(
